@@ -16,15 +16,19 @@ def bytesToNatLE : List UInt8 → Nat
   | [] => 0
   | b :: bs => b.toNat + 256 * bytesToNatLE bs
 
+/-- representable in `w` bytes? (unsigned: `0 ≤ n < 2^(8w)`; signed: `−2^(8w−1) ≤ n < 2^(8w−1)`;
+CPython lets zero bytes hold 0 and, signed, −1) -/
+def intInRange (n : Int) (w : Nat) (signed : Bool) : Bool :=
+  if w = 0 then (n == 0 || (signed && n == -1))
+  else if signed then decide (-(2 ^ (8 * w - 1) : Int) ≤ n ∧ n < (2 ^ (8 * w - 1) : Int))
+  else decide (0 ≤ n ∧ n < (2 ^ (8 * w) : Int))
+
 /-- `int.to_bytes(n, w, order, signed=signed)`; `none` = OverflowError -/
 def intToBytes (n : Int) (w : Nat) (big : Bool) (signed : Bool) : Option (List UInt8) :=
-  let inRange : Bool :=
-    if signed then decide (-(2 ^ (8 * w) / 2 : Int) ≤ n ∧ n < (2 ^ (8 * w) / 2 : Int)) && (w > 0 || n == 0)
-    else decide (0 ≤ n ∧ n < (2 ^ (8 * w) : Int))
-  if !inRange then none else
-  let m : Nat := (n % (2 ^ (8 * w) : Int)).toNat          -- two's complement
-  let le := natToBytesLE w m
-  some (if big then le.reverse else le)
+  if intInRange n w signed then
+    let le := natToBytesLE w (n % (2 ^ (8 * w) : Int)).toNat       -- two's complement
+    some (if big then le.reverse else le)
+  else none
 
 /-- `int.from_bytes(b, order, signed=signed)` -/
 def bytesToInt (b : List UInt8) (big : Bool) (signed : Bool) : Int :=
@@ -152,22 +156,25 @@ def utfDecode (width : Nat) (order : Option Bool) (b : List UInt8) : Option (Lis
 /-- `~x` on unbounded integers (infinite two's complement) -/
 def bitNot (x : Int) : Int := -x - 1
 
-/-- `x & y`: both operands as infinite two's-complement bit strings -/
+/-- `a & ~m` on naturals (clear in `a` the bits set in `m`) -/
+def natAndNot (a m : Nat) : Nat := a ^^^ (a &&& m)
+
+/-- `x & y`: both operands as infinite two's-complement bit strings (`~z = −z−1 ≥ 0` for `z < 0`) -/
 def bitAnd (x y : Int) : Int :=
   if 0 ≤ x then
     if 0 ≤ y then ((x.toNat &&& y.toNat : Nat) : Int)
-    else ((x.toNat - (x.toNat &&& (bitNot y).toNat) : Nat) : Int)      -- x & ~m = x − (x & m)
+    else ((natAndNot x.toNat (bitNot y).toNat : Nat) : Int)            -- x & ~m
   else
-    if 0 ≤ y then ((y.toNat - (y.toNat &&& (bitNot x).toNat) : Nat) : Int)
+    if 0 ≤ y then ((natAndNot y.toNat (bitNot x).toNat : Nat) : Int)
     else bitNot (((bitNot x).toNat ||| (bitNot y).toNat : Nat) : Int)  -- ~(~x | ~y)
 
 /-- `x | y` -/
 def bitOr (x y : Int) : Int :=
   if 0 ≤ x then
     if 0 ≤ y then ((x.toNat ||| y.toNat : Nat) : Int)
-    else bitNot (((bitNot y).toNat - ((bitNot y).toNat &&& x.toNat) : Nat) : Int)   -- ~(~y & ~x)
+    else bitNot ((natAndNot (bitNot y).toNat x.toNat : Nat) : Int)     -- ~(~y & ~x)
   else
-    if 0 ≤ y then bitNot (((bitNot x).toNat - ((bitNot x).toNat &&& y.toNat) : Nat) : Int)
+    if 0 ≤ y then bitNot ((natAndNot (bitNot x).toNat y.toNat : Nat) : Int)
     else bitNot (((bitNot x).toNat &&& (bitNot y).toNat : Nat) : Int)
 
 /-- `x ^ y` -/
